@@ -520,7 +520,12 @@ class SourceGenerator(NodeVisitor):
         self.write(node.arg)
 
     def visit_Constant(self, node):
-        self.write(repr(node.value))
+        if isinstance(node.value, str):
+            # the generated module may be written in a legacy source
+            # encoding that lacks a character spelled as an escape
+            self.write(ascii(node.value))
+        else:
+            self.write(repr(node.value))
 
     def visit_Tuple(self, node):
         self.write("(")
